@@ -20,6 +20,7 @@ import CqlVerif.Drv.Ring
 import CqlVerif.Drv.Hostile
 import CqlVerif.Drv.Race
 import CqlVerif.Drv.Tls
+import CqlVerif.Drv.Late
 open CqlVerif.Drv
 
 def dispatch (stream op real : String) : Verdict :=
@@ -46,6 +47,7 @@ def dispatch (stream op real : String) : Verdict :=
   | "hostile" => HostileStream.handle op real
   | "race" => RaceStream.handle op real
   | "tls" => TlsStream.handle op real
+  | "late" => LateStream.handle op real
   | _ => { kind := "diff", detail := s!"unknown stream {stream}" }
 
 partial def loop (h : IO.FS.Stream) (out : IO.FS.Stream) : IO Unit := do
